@@ -11,10 +11,13 @@ wt=/tmp/seed/$prop/wt
 out=/tmp/seed/$prop/eval_$letter
 mkdir -p "$out"
 cd /verif || exit 2
+patch=/tmp/seed/$prop/OUT/patch$letter.diff
+[ -f "$patch" ] || patch=/verif/seeded/$prop$letter/patch.diff
+if [ ! -d "$wt" ]; then git -C /repo worktree add -q --detach "$wt" HEAD || exit 2; fi
 git -C "$wt" checkout -q -- . || exit 2
 # evaluate on top of the current /repo HEAD (fix: commits made after the seed was written must be present)
 git -C "$wt" checkout -q --detach "$(git -C /repo rev-parse HEAD)" || exit 2
-git -C "$wt" apply "/tmp/seed/$prop/OUT/patch$letter.diff" || { echo "cannot apply"; exit 2; }
+git -C "$wt" apply "$patch" || { echo "cannot apply"; exit 2; }
 for chk in "$@"; do
   before=$(ls replay/$chk 2>/dev/null | sort)
   VERIF_REPO=$wt VERIF_REPO_DIR=$wt ./run.sh "$chk" quick > "$out/$chk.log" 2>&1
@@ -28,3 +31,5 @@ for chk in "$@"; do
   git checkout -q -- "evidence/$chk.json" 2>/dev/null
 done
 git -C "$wt" checkout -q -- .
+# remove the scratch worktree with its build output when asked to (SEED_CLEAN=1)
+if [ "${SEED_CLEAN:-0}" = 1 ]; then git -C /repo worktree remove --force "$wt"; rm -rf "/verif/.build/alt-$(echo "$wt" | tr -cd 'A-Za-z0-9')"; fi
